@@ -175,6 +175,11 @@ pub fn check_case(rep: &mut Report, case: &Case) -> Option<(String, String)> {
         let _ = guarded(std::panic::AssertUnwindSafe(|| ex.store.annotate(
             AnnotationBuilder::new().with_id(format!("dl{}", j)).with_target(SelectorBuilder::directionalselector(subs)).with_data(TVSET, "delimiter", if j % 2 == 0 { " " } else { "--" }),
         )));
+        // and after it one with several selections and NO delimiter of its own (its pieces are joined with nothing)
+        let subs2: Vec<SelectorBuilder> = (0..k).map(|x| { let b = (x * 2 + j + 1) % (*n - 1); SelectorBuilder::textselector(rid.clone(), Offset::simple(b, (b + 1 + j % 2).min(*n))) }).collect();
+        let _ = guarded(std::panic::AssertUnwindSafe(|| ex.store.annotate(
+            AnnotationBuilder::new().with_id(format!("nd{}", j)).with_target(if j % 2 == 0 { SelectorBuilder::compositeselector(subs2) } else { SelectorBuilder::multiselector(subs2) }),
+        )));
     }
     let store = &mut ex.store;
     // ------- before protection
